@@ -26,7 +26,12 @@ func main() {
 	corpus := flag.String("corpus", "", "corpus directory for this property")
 	budget := flag.Int("budget", 0, "random scripts per stream (0 = tier default)")
 	flag.StringVar(&driverPath, "driver", "/verif/lean/.lake/build/bin/lsdriver", "lsdriver binary")
+	concChild := flag.String("conc-storage-child", "", "internal: run the global-storage scenario in this fresh process")
 	flag.Parse()
+	if *concChild != "" {
+		storageChild(*concChild)
+		return
+	}
 
 	logrus.SetOutput(io.Discard)
 	logrus.SetLevel(logrus.PanicLevel)
